@@ -21,12 +21,14 @@ def sh(cmd, cwd=None, timeout=3600):
 
 def mutants(ids):
     out = []
+    only = {tuple(x.split('/')) for x in ids if '/' in x}
+    ids = [x.split('/')[0] for x in ids]
     for pid in sorted(os.listdir(INC)):
         if ids and pid not in ids:
             continue
         for v in sorted(os.listdir(os.path.join(INC, pid))):
             d = os.path.join(INC, pid, v)
-            if os.path.exists(os.path.join(d, "patch.diff")):
+            if os.path.exists(os.path.join(d, "patch.diff")) and (not only or (pid, v) in only or not any(o[0] == pid for o in only)):
                 out.append((pid, v, d))
     return out
 
@@ -42,7 +44,7 @@ def confirm_lane(lane, items):
     res = []
     for pid, v, d in items:
         r = {"property": pid, "variant": v, "head": sh("git -C /repo rev-parse --short HEAD")[1].strip()}
-        sh("git checkout -- . && git clean -fdq tests src", cwd=wt)
+        sh("git reset -q --hard && git clean -fdq tests src", cwd=wt)
         demo = os.path.join(wt, "tests", "seeded_demo.rs")
         shutil.copy(os.path.join(d, "demo.rs"), demo)
         rc, out = sh("cargo test --offline --test seeded_demo 2>&1 | tail -40", cwd=wt)
@@ -71,7 +73,7 @@ def confirm_lane(lane, items):
 
 def confirm(ids):
     items = mutants(ids)
-    lanes = 4
+    lanes = int(os.environ.get('SEEDED_LANES', '4'))
     with ThreadPoolExecutor(lanes) as ex:
         list(ex.map(lambda k: confirm_lane(k, items[k::lanes]), range(lanes)))
 
